@@ -37,6 +37,14 @@ class Lowering:
             e = z3.If(z3.Bool(nm), z3.RealVal(1), z3.RealVal(0))
         elif k[0] == "app":
             e = z3.Real(nm)
+            # a function declared positive in the contract's precondition (e.g. a population) has positive values
+            try:
+                from .opaque import registry
+                F = registry().get(k[1])
+                if F is not None and getattr(F, "positive", False) and not k[3]:
+                    self.side.append(e > 0)
+            except Exception:
+                pass
         else:
             op = k[1]
             args = [self.poly(P.poly_from_key(x)) for x in k[2] if isinstance(x, tuple)]
